@@ -85,3 +85,11 @@ func sortedKeys[V any](m map[string]V) []string {
 	sort.Strings(ks)
 	return ks
 }
+
+// untilW runs a world until an extra condition holds (probe tasks between phases).
+type untilW struct {
+	simrt.World
+	done func() bool
+}
+
+func (u untilW) Done() bool { return u.done() }
